@@ -1,21 +1,30 @@
 #!/bin/bash
 # ./check.sh <Cxx> <quick|thorough>            run a check (rebuilds the harness against /repo's working tree)
 # ./check.sh <Cxx> replay <path>               re-run one recorded case verbosely
-# ./check.sh build                             build only
+# ./check.sh build                             build only (plain + race)
+#
+# VERIF_SEED=<n> selects the seed. For validating the monitors against a scratch copy of the
+# repository (mutants, seeded changes) set VERIF_REPO=<dir> (and VERIF_EVIDENCE_DIR, VERIF_BIN_DIR):
+# the harness is then built with a temporary -modfile whose replace points at that copy.
 set -u
 export GOFLAGS=-mod=mod GOPROXY=off GOSUMDB=off GOTOOLCHAIN=local
-export GOCACHE=${GOCACHE:-/root/.cache/go-build}
 HERE="$(cd "$(dirname "$0")" && pwd)"
 cd "$HERE/harness" || exit 2
 RACE_PROPS=" C09 C12 C14 "
+BIN="${VERIF_BIN_DIR:-$HERE/harness/bin}"
+MODFLAG=""
+if [ -n "${VERIF_REPO:-}" ]; then
+  MODDIR="$BIN/mod"; mkdir -p "$MODDIR"
+  sed "s#=> /repo#=> $VERIF_REPO#" go.mod > "$MODDIR/go.mod"; cp go.sum "$MODDIR/go.sum"
+  MODFLAG="-modfile=$MODDIR/go.mod"
+fi
 
 build() {
-  mkdir -p bin
-  # the ice sources under /repo are compiled into the binary on every invocation
-  cp /repo/go.sum go.sum 2>/dev/null
-  go build -tags verif -o bin/icecheck ./cmd/icecheck || { echo "BUILD-FAILED (plain)"; return 1; }
+  mkdir -p "$BIN"
+  # the ice sources under /repo (or $VERIF_REPO) are compiled into the binary on every invocation
+  go build $MODFLAG -tags verif -o "$BIN/icecheck" ./cmd/icecheck || { echo "BUILD-FAILED (plain)"; return 1; }
   if [ "${1:-}" = race ]; then
-    go build -race -tags verif -o bin/icecheck-race ./cmd/icecheck || { echo "BUILD-FAILED (race)"; return 1; }
+    go build $MODFLAG -race -tags verif -o "$BIN/icecheck-race" ./cmd/icecheck || { echo "BUILD-FAILED (race)"; return 1; }
   fi
 }
 
@@ -25,6 +34,6 @@ need=""
 case "$RACE_PROPS" in *" $id "*) need=race;; esac
 build $need || exit 2
 if [ "$what" = replay ]; then
-  exec ./bin/icecheck -prop "$id" -replay "$3"
+  exec "$BIN/icecheck" -prop "$id" -replay "$3"
 fi
-exec ./bin/icecheck -prop "$id" -tier "$what"
+exec "$BIN/icecheck" -prop "$id" -tier "$what"
